@@ -29,7 +29,7 @@
    implementation. *)
 From Coq Require Import List ZArith Bool Arith Lia.
 Import ListNotations.
-From QV Require Import Model.C01 Proofs.C01 Proofs.C01_pred Proofs.C01_add Proofs.C01_dia Proofs.C01_reshape Proofs.C01_kron Proofs.C01_matmul Proofs.C01_inner Proofs.C01_diacsr.
+From QV Require Import Model.C01 Proofs.C01 Proofs.C01_pred Proofs.C01_add Proofs.C01_dia Proofs.C01_reshape Proofs.C01_kron Proofs.C01_matmul Proofs.C01_inner Proofs.C01_diacsr Proofs.C01_adddia.
 
 Section Props.
 Variable C : Type.
@@ -347,6 +347,111 @@ Theorem C01_dia_from_csr_exact : forall (C : Type) (c0 : C) (m : csr C) i j, wf_
   den_dia C c0 (dia_from_csr C c0 m) i j = den_csr C c0 m i j.
 Proof. exact dia_from_csr_den. Qed.
 Print Assumptions C01_dia_from_csr_exact.
+
+(* ----------------------------------------- add_dia / clean_dia / iadd_dense *)
+Section AddDia.
+Variable C : Type.
+Variables (c0 c1 : C) (cadd cmul : C -> C -> C).
+Variable is0 : C -> bool.
+Variable ceqb : C -> C -> bool.
+Variable tidy : C -> C.
+Hypothesis Hadd0r : forall x, cadd x c0 = x.
+Hypothesis Hadd0l : forall x, cadd c0 x = x.
+Hypothesis Haddc : forall x y, cadd x y = cadd y x.
+Hypothesis Hadda : forall x y z, cadd x (cadd y z) = cadd (cadd x y) z.
+Hypothesis Hmul0r : forall x, cmul x c0 = c0.
+Hypothesis Hmul1l : forall x, cmul c1 x = x.
+Hypothesis Hdistr : forall x y z, cmul x (cadd y z) = cadd (cmul x y) (cmul x z).
+Hypothesis His0 : forall x, is0 x = true <-> x = c0.
+Hypothesis Hceq : forall a b, ceqb a b = true <-> a = b.
+Hypothesis Htidy0 : tidy c0 = c0.
+
+(* add_dia on operands with distinct stored offsets (in any order, slots
+   outside the matrix holding anything): the merge walk, clean_dia when the
+   produced offsets are not increasing, and tidyup_dia give
+   tidy(left + scale*right) entry by entry *)
+Theorem C01_add_dia : forall (a b out : dia C) scale i j,
+  wf_dia C a -> wf_dia C b ->
+  add_dia C c0 c1 cadd cmul is0 ceqb tidy a b scale = Some out ->
+  i < a_nr C a -> j < a_nc C a ->
+  den_dia C c0 out i j = tidy (cadd (den_dia C c0 a i j) (cmul scale (den_dia C c0 b i j))).
+Proof.
+  exact (add_dia_den C c0 c1 cadd cmul is0 ceqb tidy Hadd0r Hadd0l Haddc Hadda Hmul0r Hmul1l
+           Hdistr His0 Hceq Htidy0).
+Qed.
+
+(* without the guard: an offset stored several times counts with the SUM of
+   its diagonals (dsumat), in add_dia ... *)
+Theorem C01_add_dia_duplicate_offsets_sum : forall (a b out : dia C) scale i j,
+  rows_len C (a_nc C a) (a_diags C a) -> rows_len C (a_nc C a) (a_diags C b) ->
+  add_dia C c0 c1 cadd cmul is0 ceqb tidy a b scale = Some out ->
+  i < a_nr C a -> j < a_nc C a ->
+  den_dia C c0 out i j =
+  tidy (cadd (dsumat C c0 cadd (Z.of_nat j - Z.of_nat i) j (a_diags C a))
+             (cmul scale (dsumat C c0 cadd (Z.of_nat j - Z.of_nat i) j (a_diags C b)))).
+Proof.
+  exact (add_dia_total C c0 c1 cadd cmul is0 ceqb tidy Hadd0r Hadd0l Haddc Hadda Hmul0r Hmul1l
+           Hdistr His0 Hceq Htidy0).
+Qed.
+
+(* ... and in clean_dia, whose result has sorted distinct offsets; Dia.to_array
+   keeps the LAST such diagonal instead (C01_dia_duplicate_offsets_refuted) *)
+Theorem C01_clean_dia_sums_duplicates : forall (a : dia C) i j,
+  rows_len C (a_nc C a) (a_diags C a) -> i < a_nr C a -> j < a_nc C a ->
+  zsorted C (a_diags C (clean_dia C c0 cadd a)) /\
+  den_dia C c0 (clean_dia C c0 cadd a) i j =
+  dsumat C c0 cadd (Z.of_nat j - Z.of_nat i) j (a_diags C a).
+Proof. exact (clean_dia_total C c0 cadd Hadd0r Hadd0l Haddc Hadda). Qed.
+
+Theorem C01_add_dia_shape_guard : forall (a b : dia C) scale,
+  (a_nr C a <> a_nr C b \/ a_nc C a <> a_nc C b) ->
+  add_dia C c0 c1 cadd cmul is0 ceqb tidy a b scale = None.
+Proof. exact (add_dia_guard C c0 c1 cadd cmul is0 ceqb tidy). Qed.
+
+(* iadd_dense (the in-place kernel used by matmul's `out +=` and by the
+   solvers): all four memory-order combinations, every shape - the strided
+   zaxpy branch takes line length and stride from the order of `left` *)
+Theorem C01_iadd_dense : forall (l r out : dense C) scale i j,
+  wf_dense C l -> wf_dense C r ->
+  iadd_dense C c0 cadd cmul l r scale = Some out ->
+  i < d_nr C l -> j < d_nc C l ->
+  d_fortran C out = d_fortran C l /\
+  den_dense C c0 out i j = cadd (den_dense C c0 l i j) (cmul scale (den_dense C c0 r i j)).
+Proof.
+  intros l r out scale i j Wl Wr H Hi Hj. split.
+  - unfold iadd_dense, add_dense in H.
+    destruct (negb ((d_nr C l =? d_nr C r) && (d_nc C l =? d_nc C r))); [discriminate|].
+    injection H as H. subst out. reflexivity.
+  - exact (add_dense_den C c0 cadd cmul l r out scale i j Wl Wr H Hi Hj).
+Qed.
+End AddDia.
+Print Assumptions C01_add_dia.
+Print Assumptions C01_add_dia_duplicate_offsets_sum.
+Print Assumptions C01_clean_dia_sums_duplicates.
+Print Assumptions C01_add_dia_shape_guard.
+Print Assumptions C01_iadd_dense.
+
+(* non-vacuity: Gaussian integers; operands with unsorted offsets (clean_dia
+   path), a partly-outside diagonal with garbage, and a cancelling diagonal
+   that tidyup_dia drops *)
+Example C01_nonvacuous_add_dia :
+  (forall x y z, gmul x (gadd y z) = gadd (gmul x y) (gmul x z)) /\
+  let a := mkA 2 3 [(1, [(0, 0); (5, 0); (6, 0)]); (-1, [(1, 0); (7, 7); (0, 0)]);
+                    (0, [(7, 0); (8, 0); (9, 9)])]%Z in
+  let b := mkA 2 3 [(0, [(1, 0); (1, 0); (1, 0)]); (-1, [(-1, 0); (0, 0); (0, 0)])]%Z in
+  wf_dia G a /\ wf_dia G b /\
+  vO vA (G_add_dia a b (1, 0)%Z) =
+    Some (2, 3, [(0, [(8, 0); (9, 0); (0, 0)]); (1, [(0, 0); (5, 0); (6, 0)])]%Z).
+Proof.
+  split; [intros [a b] [c d] [e f]; unfold gmul, gadd; cbn [fst snd]; f_equal; lia|].
+  split; [|split; [|vm_compute; reflexivity]].
+  - split; simpl.
+    + repeat constructor; simpl; intuition lia.
+    + intros d [<-|[<-|[<-|[]]]]; reflexivity.
+  - split; simpl.
+    + repeat constructor; simpl; intuition lia.
+    + intros d [<-|[<-|[]]]; reflexivity.
+Qed.
 
 (* ------------------------------------------- reshape and column stacking *)
 (* reshape keeps the entry at every linear (row-major) position i*nc + j,
